@@ -130,7 +130,7 @@ func selPath(v ssa.Value, d int) []string {
 func runC03(c *Ctx) {
 	r := c.R
 	r.Rule("O-1", "one tokenizer: every indexed token list and the query's term list are results of normalizeAndTokenize")
-	r.Rule("O-2", "field tables agree: same field set in fieldTF/docLens/docLensF; per field f one text-field family is counted under tag f with len of the same token list as its length; the tag switch increments field f; termBM25F uses f in all five selectors of one call per field and sums all; sums and averages cover every f")
+	r.Rule("O-2", "field tables agree: same field set in fieldTF/docLens/docLensF; per field f one text-field family is counted under tag f with len of the same token list as its length; the tag switch increments field f; termBM25F uses f in all five selectors of one call per field and sums all; inside the per-field formula a default replaces a parameter only where that parameter is not positive; sums and averages cover every f")
 	r.Rule("O-3", "document identity: one index value per document across indexCommand(&Commands[i]), docLens[i], perDoc[i] and posting.docID; scoring uses p.docID for key, command and lengths")
 	r.Rule("O-4", "df once per document: df[term]++ exactly once per key of one document's term map")
 	r.Rule("O-5", "rebuild pairing: every index (re)build on a database that may carry a re-ranker is followed on all paths by the re-ranker rebuild; every replacement of Commands by both rebuilds")
